@@ -137,7 +137,7 @@ def _housekeeping():
                 if isinstance(v, list):
                     base = _REG_BASE.setdefault(k, len(v))
                     if len(v) > base + 5000:
-                        del v[base:]
+                        del v[base:]  # (strong or weak references alike)
     except Exception:
         pass
 
